@@ -9,6 +9,7 @@ import Rare.Proofs.C03Spark
 import Rare.Proofs.C03Cmd
 import Rare.Proofs.C03SparkCsv
 import Rare.Proofs.C03Sbv
+import Rare.Proofs.C03SparkBy
 import Rare.Gen.C03
 import Rare.Props.C07
 import Rare.Props.C13
@@ -1470,5 +1471,83 @@ example : (let o := sparkCmd 1 false (asc "text") (sparkRun 1 [0] [.sample [97, 
   decide +kernel
 example : NameOrder bytesLt := bytesLt_nameOrder
 example : ∃ h c, TerminalC exCls (·.text) exCfg exData h c := terminalC_inhabited exCls (·.text) exCfg exData (by decide) (by decide) (by decide)
+
+/-! ### spark with the column sorter of `--sort-cols` inside the executable model (round 4, last)
+
+`sparkTrimBy less` / `sparkRunBy less` / `sparkCmdBy`: the trim of every render keeps the last `--cols` columns of
+`colSorter = BuildSorter(sortCols)` – `numeric` (spark's DEFAULT), `text`, reversed or not – and the `tbl` / `cmd` ops replay
+exactly that on the real `TableAggregator` / the real `sparkFunction`. -/
+
+/-- For EVERY `--sort-cols` text whose comparator is pure and not value-ordered (`text`, `numeric`, any spelling, `:asc`,
+`:desc`, `:rev`, `:reverse`) and the executable model run with THAT comparator: after any script of samples and renders the
+final render leaves the same cells, rows, columns and parse-error count as one render on the sequentially sampled table. -/
+theorem spark_model_any_sort_cols_render_timing_independent (sortCols : Bytes) (less : NV → NV → Bool)
+    (hless : pureSortLess sortCols = some less) (hv : sortsByValue sortCols = false)
+    (n : Nat) (d : Bytes) (hd : d ≠ []) (evs : List SparkEv) :
+    let tf := sparkTrimBy less n (sparkRunBy less n d evs)
+    let rf := sparkTrimBy less n (Table.run d (sparkSamples evs))
+    (∀ c r, tf.cell c r = rf.cell c r) ∧ (∀ r, (aget tf.rows r).isSome = (aget rf.rows r).isSome) ∧
+    (∀ c, (aget tf.cols c).isSome = (aget rf.cols c).isSome) ∧ tf.errors = rf.errors := by
+  obtain ⟨lt, ho, hl⟩ := pureSortLess_nameLess C13.numeric_real_strict_total sortCols less hless hv
+  exact sparkBy_final ho hl (pureSortLess_order C13.numeric_real_strict_total sortCols less hless) n d hd evs
+
+/-- … and the COMPLETE result of the command model (`sparkCmdBy`: footer with the row and column counts, `--csv` text, exit
+status) for that `--sort-cols`, which exists (`isSome`) for every such name. -/
+theorem spark_command_any_sort_cols_render_timing_independent (n : Nat) (d : Bytes) (hd : d ≠ []) (evs : List SparkEv)
+    (sortCols : Bytes) (less : NV → NV → Bool) (hless : pureSortLess sortCols = some less)
+    (hs : sortsByValue sortCols = false) (k : Counters) (readErrors : Int) :
+    sparkCmdBy n false sortCols (sparkRunBy less n d evs) k readErrors =
+      sparkCmdBy n false sortCols (Table.run d (sparkSamples evs)) k readErrors ∧
+    (sparkCmdBy n false sortCols (Table.run d (sparkSamples evs)) k readErrors).isSome = true := by
+  obtain ⟨lt, ho, hl⟩ := pureSortLess_nameLess C13.numeric_real_strict_total sortCols less hless hs
+  have hord := pureSortLess_order C13.numeric_real_strict_total sortCols less hless
+  obtain ⟨a, b, c, e⟩ := sparkBy_final ho hl hord n d hd evs
+  have nd1 := reach_nd (sparkRunBy_reach hl hord n d evs)
+  have i2 := C07.tableInv_run d hd (sparkSamples evs)
+  have t1 := sparkTrimBy_nd less n _ nd1.1 nd1.2
+  have t2 := sparkTrimBy_nd less n _ i2.nodupRows i2.nodupCols
+  have hrows := tableCsvRows_of_cells_ref _ _ a b c _ _ _ _ ⟨t1.2, fun k => mem_akeys_iff _ _⟩ ⟨t2.2, fun k => mem_akeys_iff _ _⟩
+    ⟨t1.1, fun k => mem_akeys_iff _ _⟩ ⟨t2.1, fun k => mem_akeys_iff _ _⟩
+  have hl1 := length_eq_of_same_keys _ _ t1.1 t2.1 b
+  have hl2 := length_eq_of_same_keys _ _ t1.2 t2.2 c
+  simp only [sparkCmdBy, hless, hs, Bool.not_false, Bool.and_self, if_true, tableCmd, hrows, e, hl1, hl2, Option.isSome_some, and_self]
+
+/-- `sparkCmdBy` is `sparkCmd` for the plain `text` order, `tabulateFunction` on the untouched table when nothing trims
+(`--notruncate` or a value-ordered name), and undefined exactly when `pureSortLess` is (inferring names, errors); the
+comparators it can trim by are the four name orders – text, numeric and their reverses – each a `NameOrder` on the names. -/
+theorem spark_command_by_sort_cols (n : Nat) (noTruncate : Bool) (sortCols : Bytes) (t : Table) (k : Counters) (readErrors : Int) :
+    (pureSortLess sortCols = some nvNameLess →
+      sparkCmdBy n noTruncate sortCols t k readErrors = some (sparkCmd n noTruncate sortCols t k readErrors)) ∧
+    (∀ less, pureSortLess sortCols = some less → (noTruncate = true ∨ sortsByValue sortCols = true) →
+      sparkCmdBy n noTruncate sortCols t k readErrors = some (tableCmd isortFn (akeys t.cols) (akeys t.rows) t k readErrors)) ∧
+    (pureSortLess sortCols = none → sparkCmdBy n noTruncate sortCols t k readErrors = none) ∧
+    (∀ less, pureSortLess sortCols = some less → sortsByValue sortCols = false →
+      (less = nvNameLess ∨ less = revLess nvNameLess ∨ less = nvSmartLess ∨ less = revLess nvSmartLess) ∧
+      ∃ lt : Bytes → Bytes → Bool, NameOrder lt ∧ ∀ a b : NV, a.name ≠ b.name → less a b = lt a.name b.name) := by
+  refine ⟨fun h => ?_, fun less h hn => ?_, fun h => ?_, fun less h hv => ?_⟩
+  · simp only [sparkCmdBy, h, sparkCmd, sparkTrimBy_text]
+  · rcases hn with hn | hn <;> simp [sparkCmdBy, h, hn]
+  · simp only [sparkCmdBy, h]
+  · exact ⟨pureSortLess_name_cases sortCols less h hv, pureSortLess_nameLess C13.numeric_real_strict_total sortCols less h hv⟩
+
+/-- The order is not decoration (kernel-checked): columns `10` and `9`, `--cols 1`. The untrimmed table is `,10,9 / r,1,5`;
+the text order keeps column `9` (`"10" < "9"`), the reversed text order and the numeric order (9 < 10) keep column `10` – a
+model that trimmed by the text order whatever `--sort-cols` says would be wrong for spark's default. -/
+theorem spark_sort_cols_order_matters :
+    let samples : List Bytes := [asc "10" ++ [0] ++ asc "r", asc "9" ++ [0] ++ asc "r" ++ [0] ++ asc "5"]
+    let t := Table.run [0] samples
+    let csvOf (u : Table) : Bytes := writeCsv (tableCsvRows isortFn (akeys u.cols) (akeys u.rows) u)
+    refTableCsv [0] samples = asc ",10,9\nr,1,5\n" ∧
+    csvOf (sparkTrimBy nvNameLess 1 t) = asc ",9\nr,5\n" ∧
+    csvOf (sparkTrimBy (revLess nvNameLess) 1 t) = asc ",10\nr,1\n" ∧
+    csvOf (sparkTrimBy nvSmartLess 1 t) = asc ",10\nr,1\n" ∧
+    csvOf (sparkTrimBy (revLess nvSmartLess) 1 t) = asc ",9\nr,5\n" := by
+  decide +kernel
+
+/-- the hypotheses are satisfiable: `numeric` (spark's default) and `Text:desc` are pure, not value-ordered names -/
+example : pureSortLess (asc "numeric") = some nvSmartLess ∧ sortsByValue (asc "numeric") = false ∧
+    pureSortLess (asc "Text:desc") = some (revLess nvNameLess) ∧ sortsByValue (asc "Text:desc") = false :=
+  ⟨pureSortLess_numeric _ (asc "numeric") false (by decide +kernel) (by decide +kernel), by decide +kernel,
+   pureSortLess_text _ (asc "text") true (by decide +kernel) (by decide +kernel), by decide +kernel⟩
 
 end Rare.C03
